@@ -33,6 +33,10 @@ CHECKS = {
    technique="exhaustive crash-image enumeration per commit from the interposed write/fsync/fallocate log of the real write path (all subsets of unsynced ops, sector tears, 8-byte header tears, kill prefixes), each image reopened with the real library",
    text="For every commit of the scripted histories (file growth from 4 pages, page-reusing update chains, overflow values, bucket deletes, splits/merges, every pair of kv-alphabet transactions) every crash image of the stated crash model is synthesised and reopened: open must succeed and show exactly the pre- or post-state (post once all syncs completed), DB::check() and the independent checker must accept the file.",
    note="Trusted: the crash model (fsync barrier semantics, 512-byte sectors, 8-byte header words), fileck, refmodel. Interposition sees all I/O of the library on the database fd."),
+ "C11": dict(engine="faultx", cat="fault_enumeration", ref="DESIGN.md §2 C11",
+   technique="exhaustive single-fault enumeration: every I/O call of every target commit fails in every mode of its kind (errno, short write then errno) via in-process libc interposition; then follow-up transactions on the same handle and a reopen, judged by the reference model, the independent file checker and DB::check()",
+   text="For each commit of the scripted histories the calls it issues are counted, then the same history is replayed once per (call, failure mode): commit must return Err without panicking, the same handle must at once show exactly the pre- or post-state, three further transactions (one reusing free pages) must commit and read back, and the file must be well-formed, also after reopening. Thorough adds a second fault at every call of the large follow-up commit.",
+   note="Trusted: interposition reaches every I/O call of the commit path; refmodel; fileck. RLIMIT_FSIZE is modelled as the extension/write call failing."),
 }
 
 NA = {}
@@ -72,6 +76,7 @@ def main():
             {"name": "enumx", "path": "mc/src/enumx.rs", "serves_properties": ["C08"], "kind_free_text": "bounded-exhaustive input enumeration (seek keys x bound kinds x shapes) on the real read API"},
             {"name": "metax", "path": "mc/src/metax.rs", "serves_properties": ["C12"], "kind_free_text": "exhaustive byte/word damage enumeration on header pages, recovered with the real open()"},
             {"name": "crashx", "path": "mc/src/crashx.rs", "serves_properties": ["C02"], "kind_free_text": "crash-point / torn-write enumeration over the logged I/O of each commit, recovery by the real open()"},
+            {"name": "faultx", "path": "mc/src/faultx.rs", "serves_properties": ["C11"], "kind_free_text": "per-call I/O fault injection over each commit, follow-up transactions and reopen"},
             {"name": "seqx", "path": "mc/src/seqx.rs", "serves_properties": ["C01", "C03", "C05", "C06", "C07", "C10"], "kind_free_text": "explicit-state BFS over histories of whole transactions executed on the real library in worker processes; state = history, key = structural digest of file + shared in-memory bookkeeping"},
         ],
         "checks": checks,
